@@ -749,6 +749,11 @@ def run(chk):
     chk.rule_prefix = "C06."
     chk.rule_filter = lambda r: r.startswith("I4")
     C06.check_i4(chk, m, K)
+    # "accepted fibre_run_atomic requests [join the run queue] in their order of arrival": a request is accepted (true) only after
+    # it has been claimed, filled in and sent - a filter that answers true without sending loses the request (C06.I2)
+    chk.rule("C06.I2", "fibre_run_atomic: claim -> store fibre into slot -> send; true only after send, false sends nothing")
+    chk.rule_filter = lambda r: r.startswith("I2")
+    C06.check_i2(chk, m, K)
     chk.rule_prefix = ""
     chk.rule_filter = None
     # the code under this property is written with the protothread macros: their expansion is validated as in C08
